@@ -47,7 +47,10 @@ impl FaultKind {
 #[derive(Clone, Copy, Debug, PartialEq, Eq)]
 pub enum Op {
     Read,
+    /// opening / creating a file for writing
     Write,
+    /// a write(2) call on an already opened file
+    WriteData,
 }
 
 #[derive(Clone, Debug, PartialEq, Eq)]
@@ -77,6 +80,9 @@ pub struct SimDisk {
     /// happen since the last `reset_read_clock`, the read panics with `READ_BUDGET_MARKER`
     pub read_budget: Option<u32>,
     pub reads_since_reset: u32,
+    pub data_write_counts: BTreeMap<PathBuf, u32>,
+    /// paths on which a write(2) call was made to fail
+    pub data_write_failures: BTreeSet<PathBuf>,
 }
 
 pub const READ_BUDGET_MARKER: &str = "VERIF-READ-BUDGET";
@@ -272,6 +278,18 @@ impl SimDisk {
 
     /// positional write used by the shim's File (offset is tracked there)
     pub fn write_at(&mut self, p: &Path, offset: usize, data: &[u8]) -> io::Result<usize> {
+        let count = {
+            let c = self.data_write_counts.entry(p.to_path_buf()).or_insert(0);
+            *c += 1;
+            *c
+        };
+        if let Some(k) = self.fault_for(p, Op::WriteData, count) {
+            if !matches!(k, FaultKind::Truncate(_) | FaultKind::Replace(_)) {
+                self.data_write_failures.insert(p.to_path_buf());
+                self.log.push(format!("write#{} {} -> err {}", count, p.display(), k.name()));
+                return Err(os_err(&k));
+            }
+        }
         match self.files.get_mut(p) {
             Some(b) => {
                 if b.len() < offset {
